@@ -73,6 +73,10 @@ func FSCorrupt(dir string, how int) {
 			os.WriteFile(p, []byte{0xff, 0xff, 0xff, 0x07, 0x13, 0x37, 0xfe}, 0o644)
 		case 2:
 			os.Chmod(p, 0)
+		case 3: // cut short: the last byte is missing
+			if st, err := os.Stat(p); err == nil && st.Size() > 1 {
+				os.Truncate(p, st.Size()-1)
+			}
 		}
 	}
 }
@@ -124,4 +128,56 @@ func defaultSIGXFSZ() {
 	}
 	sa := ksigaction{}
 	syscall.RawSyscall6(syscall.SYS_RT_SIGACTION, uintptr(syscall.SIGXFSZ), uintptr(unsafe.Pointer(&sa)), 0, 8, 0, 0)
+}
+
+// CrashIterations: how many torn lengths the native replay tries (the engine has one symbolic length).
+func CrashIterations() int {
+	if Concrete() || os.Getenv("VERIF_CHILD_CRASH") != "" {
+		return 1
+	}
+	return 400
+}
+
+var dirN = map[int]string{}
+
+// FSDirN: an existing storage directory private to iteration i.
+func FSDirN(i int) string {
+	if os.Getenv("VERIF_CHILD_CRASH") != "" {
+		return os.Getenv("VERIF_FSDIR")
+	}
+	if d, ok := dirN[i]; ok {
+		return d
+	}
+	base := FSDir(false)
+	d := filepath.Join(filepath.Dir(base), "iter"+strconv.Itoa(i))
+	os.MkdirAll(d, 0o755)
+	dirN[i] = d
+	return d
+}
+
+// CrashDuringK: f runs in a child process that dies inside a file write after i bytes.
+func CrashDuringK(i int, f func()) bool {
+	if pos < len(rf.Values) && rf.Values[pos].Name == "torn" {
+		pos++
+	}
+	if os.Getenv("VERIF_CHILD_CRASH") != "" {
+		lim, _ := strconv.ParseUint(os.Getenv("VERIF_CRASH_K"), 10, 64)
+		defaultSIGXFSZ()
+		syscall.Setrlimit(syscall.RLIMIT_FSIZE, &syscall.Rlimit{Cur: lim, Max: lim})
+		f()
+		os.Exit(0)
+	}
+	if Concrete() {
+		f()
+		return false
+	}
+	cmd := exec.Command(os.Args[0], "-test.run=^TestReplay$", "-test.count=1")
+	cmd.Env = append(os.Environ(), "VERIF_CHILD_CRASH=1", "VERIF_CRASH_K="+strconv.Itoa(i), "VERIF_FSDIR="+dirN[i])
+	err := cmd.Run()
+	if ee, ok := err.(*exec.ExitError); ok {
+		if ws, ok := ee.Sys().(syscall.WaitStatus); ok && ws.Signaled() {
+			return true
+		}
+	}
+	return false
 }
